@@ -299,6 +299,7 @@ func (x *Exec) evalBuiltin(name string, n *ast.CallExpr, st *State) (Val, *State
 			}
 		}
 		nm := Mp{tSto(m.Has, k, tFalse), m.Val, tIte(had, tSub(m.Len, "1"), m.Len), m.K, m.V, m.KS, m.Nil}
+		x.havocAliases(st, m, n.Args[0], "")
 		return Tup{}, x.assign(n.Args[0], nm, st)
 	case "new":
 		t := x.typeOf(n).Underlying().(*types.Pointer).Elem()
@@ -335,9 +336,15 @@ func (x *Exec) evalAppend(n *ast.CallExpr, st *State) (Val, *State) {
 		default:
 			panic(unsupported("append of %T...", sv))
 		}
+		x.havocAliases(st, base, n.Args[0], x.c.define("app.end", SInt, tAdd(base.Off, base.Len)))
 		return x.appendSeq(base, src, "app"), st
 	}
 	cur := base
+	if len(n.Args) > 1 {
+		// append may write into the spare capacity of its operand: what other variables see of that storage at or above
+		// the operand's end is arbitrary afterwards (below it nothing changes)
+		x.havocAliases(st, base, n.Args[0], x.c.define("app.end", SInt, tAdd(base.Off, base.Len)))
+	}
 	for _, a := range n.Args[1:] {
 		v, st3 := x.eval(a, st)
 		st = st3
@@ -424,6 +431,7 @@ func (x *Exec) evalCopy(n *ast.CallExpr, st *State) (Val, *State) {
 		c.assumeDef(tForall([][2]string{{"i!a", SInt}},
 			tImp(tAnd(tLe(dst.Off, "i!a"), tLt("i!a", tAdd(dst.Off, cnt))), tEq(tSel(nn, "i!a"), tSel(o, tAdd("i!a", delta)))), tSel(nn, "i!a")))
 	})
+	x.havocAliases(st, dst, n.Args[0], "")
 	// write back into the destination l-value: dst expression is X[a:b] or a slice variable
 	target := ast.Unparen(n.Args[0])
 	if se, ok := target.(*ast.SliceExpr); ok {
@@ -564,7 +572,32 @@ func (x *Exec) callByContract(ct *Contract, callee *types.Func, n *ast.CallExpr,
 				nv := Pt{p.Nil, x.keepObjs(p.Elem, c.freshVal("call."+short+"."+pname, p.T, nil), "call."+short+"."+pname), p.T}
 				postNames[pname] = nv
 				if ae := argExprs[pname]; ae != nil {
+					x.havocPtrAliases(post, p.T, x.rootObj(ae))
 					post = x.assignBack(ae, nv, post)
+				}
+			}
+			// `modifies s` for a slice or map parameter: the storage the argument refers to is arbitrary afterwards (the
+			// callee's ensures say more), for the argument and for everything that may share it
+			if sig.Variadic() && !n.Ellipsis.IsValid() && pname == sig.Params().At(sig.Params().Len()-1).Name() {
+				continue // an explicit argument list: handled below (the operands are written through their pointers)
+			}
+			switch sv := v.(type) {
+			case Sl:
+				fv := c.freshLike("call."+short+"."+pname, sv).(Sl)
+				nv := Sl{fv.Arr, sv.Off, sv.Len, sv.Nil, sv.Elem}
+				postNames[pname] = nv
+				if ae := argExprs[pname]; ae != nil {
+					x.havocAliases(post, sv, ae, "")
+					post = x.assignBack(ae, nv, post)
+				}
+			case Mp:
+				fv := c.freshLike("call."+short+"."+pname, sv).(Mp)
+				fv.Nil = sv.Nil
+				c.assume(post.pc, tGe(fv.Len, "0"))
+				postNames[pname] = fv
+				if ae := argExprs[pname]; ae != nil {
+					x.havocAliases(post, sv, ae, "")
+					post = x.assignBack(ae, fv, post)
 				}
 			}
 		}
@@ -778,6 +811,30 @@ func (x *Exec) inlineCall(callee *types.Func, fd *ast.FuncDecl, n *ast.CallExpr,
 	for i := 0; i < sig.Params().Len(); i++ {
 		st.vars[sig.Params().At(i)] = args[i]
 	}
+	// may-share classes: the callee's parameters share storage with the operands they are bound to
+	sub.aliasAnalyse(fd.Body)
+	if sig.Recv() != nil && recvExpr != nil && carriesStorage(sig.Recv().Type(), 0) {
+		for _, o := range x.aliasDerive(recvExpr) {
+			c.alias.union(sig.Recv(), o)
+		}
+	}
+	for i := 0; i < sig.Params().Len() && i < len(n.Args); i++ {
+		if sig.Variadic() && i == sig.Params().Len()-1 && !n.Ellipsis.IsValid() {
+			for _, a := range n.Args[i:] {
+				if carriesStorage(x.aliasTypeOf(a), 0) {
+					for _, o := range x.aliasDerive(a) {
+						c.alias.union(sig.Params().At(i), o)
+					}
+				}
+			}
+			break
+		}
+		if carriesStorage(sig.Params().At(i).Type(), 0) {
+			for _, o := range x.aliasDerive(n.Args[i]) {
+				c.alias.union(sig.Params().At(i), o)
+			}
+		}
+	}
 	for i := 0; i < sig.Results().Len(); i++ {
 		r := sig.Results().At(i)
 		if r.Name() != "" {
@@ -961,6 +1018,7 @@ func (x *Exec) execRangeFunc(n *ast.RangeStmt, st *State, label string) *State {
 	}
 	head := st.clone()
 	x.havoc(head, ms, fmt.Sprintf("L%d", ord))
+	x.havocLoopAliases(st, head, n.Body)
 	k := head.vars[idxObj].(Sc).T
 	head.ghost["K"] = scInt(k)
 	c.assume(head.pc, tAnd(tLe("0", k), tLe(k, z.Len)))
